@@ -93,12 +93,15 @@ def check(c):
         return orig(k, samples_batch, neg_batch, *a, **kw)
 
     state.compute_batch_gradients = cbg
+    guard, diverged = gen.divergence_guard()
     kw = dict(epochs=c["epochs"], pos_batch_size=c["pbs"], neg_batch_size=c["nbs"], k=c["k"], lr=0.01,
-              callbacks=[LambdaCallback(on_epoch_start=lambda s, e: epochs.append(e))])
+              callbacks=[LambdaCallback(on_epoch_start=lambda s, e: epochs.append(e)), guard])
     if bases is not None:
         kw["input_bases"] = bases
     state.fit(data, **kw)
 
+    if diverged[0]:
+        return {"nontrivial": False, "excluded": 1, "labels": ["diverged"]}
     B = c["pbs"]
     nb = -(-N // B)
     nbs = c["nbs"] or B
